@@ -291,6 +291,45 @@ func IDOf(n xpath.NodeNavigator) int {
 		return x.Cur
 	case *NavPlain:
 		return x.Cur
+	case *RecNav:
+		return x.Cur
 	}
 	return -1
+}
+
+// Move is one cursor movement the engine performed: op, node before, node after (0 = the move failed).
+type Move struct {
+	Op       string
+	From, To int
+}
+
+// RecNav is a URI-exposing navigator that records every cursor movement of itself and of all its
+// copies into one shared log (the implementation-shaped model XQueryVM predicts this log).
+type RecNav struct {
+	Nav
+	Log *[]Move
+}
+
+// AtRec returns a recording navigator positioned at node id.
+func (d *Doc) AtRec(id int, log *[]Move) *RecNav { return &RecNav{Nav: Nav{D: d, Cur: id}, Log: log} }
+
+func (n *RecNav) rec(op string, to int) bool {
+	*n.Log = append(*n.Log, Move{op, n.Cur, to})
+	return n.mv(to)
+}
+func (n *RecNav) Copy() xpath.NodeNavigator { c := *n; return &c }
+func (n *RecNav) MoveToRoot()               { *n.Log = append(*n.Log, Move{"root", n.Cur, 1}); n.Cur = 1 }
+func (n *RecNav) MoveToParent() bool        { return n.rec("parent", n.D.Nodes[n.Cur].P) }
+func (n *RecNav) MoveToNextAttribute() bool { return n.rec("nextattr", n.D.mvNextAttr(n.Cur)) }
+func (n *RecNav) MoveToChild() bool         { return n.rec("child", n.D.mvChild(n.Cur)) }
+func (n *RecNav) MoveToFirst() bool         { return n.rec("first", n.D.mvFirst(n.Cur)) }
+func (n *RecNav) MoveToNext() bool          { return n.rec("next", n.D.mvNext(n.Cur)) }
+func (n *RecNav) MoveToPrevious() bool      { return n.rec("prev", n.D.mvPrev(n.Cur)) }
+func (n *RecNav) MoveTo(o xpath.NodeNavigator) bool {
+	x, ok := o.(*RecNav)
+	if !ok || x.D != n.D {
+		return false
+	}
+	n.Cur = x.Cur
+	return true
 }
